@@ -29,6 +29,9 @@ pub struct DocSpec {
     /// the layout plan the text was rendered from (DocGen documents only): lets the minimiser shrink the document
     #[serde(default)]
     pub plan: Option<crate::docgen::DocPlan>,
+    /// (path of a table written with its own [header] / [[header]], byte offset of the header's `[`)
+    #[serde(default)]
+    pub headers: Vec<(Vec<PathSeg>, usize)>,
 }
 
 #[derive(Clone, Debug, PartialEq, Eq, Hash, Serialize, Deserialize, PartialOrd, Ord)]
